@@ -15,6 +15,10 @@ pub fn plan(o: &Opts) -> Vec<GroupSpec> {
       "C04" => plan_simple(o, "C04", 120, 1500, |r| { let l = vcore::rng::Src::chance(r, 30); gen::gen_strat(r, &GenCfg::core(), l) }),
       "C02" => plan_par(o, "C02", 72, 720, true, |r| gen::gen_any(r, &GenCfg::core())),
       "C05" => plan_par(o, "C05", 96, 960, false, |r| gen::gen_rederive(r, &GenCfg::core())),
+      "C06" => plan_c06(o),
+      "C07" => plan_c07(o),
+      "C08" => plan_c08(o),
+      "C09" => plan_c09(o),
       "C13" => plan_c13(o),
       "C14" => plan_c14(o),
       "C20" => plan_par(o, "C20", 30, 120, false, |r| gen::gen_any(r, &GenCfg::core())),
@@ -138,6 +142,233 @@ fn plan_c14(o: &Opts) -> Vec<GroupSpec> {
       if gen::par_rejects(&prog).is_none() && i % 2 == 0 {
          members.push(mk(Kind::AscentPar, "par", false));
       }
+      out.push(GroupSpec { members });
+   }
+   out
+}
+
+/// C06: reorderings, renamings, input order, injective constant renaming
+fn plan_c06(o: &Opts) -> Vec<GroupSpec> {
+   use vcore::xform::{self, Variant06};
+   let n = n_programs(o, 64, 600);
+   let mut out = vec![];
+   for i in 0..n as u64 {
+      let mut r = rng_for("C06", o.seed, i);
+      let uninterpreted = i % 4 == 3;
+      let mut cfg = GenCfg::core();
+      cfg.uninterpreted = uninterpreted;
+      let prog = if uninterpreted { gen::gen_core(&mut r, &cfg) } else { gen::gen_any(&mut r, &cfg) };
+      let base = format!("C06-s{}-{}", o.seed, i);
+      let mut members =
+         vec![MemberSpec { prog: prog.clone(), opts: PrintOpts::plain(Kind::Ascent), meta: meta(&base, "base", Kind::Ascent, true) }];
+      let kinds = [Variant06::PermuteRules, Variant06::PermuteDecls, Variant06::PermuteHeads, Variant06::PermuteBodies, Variant06::Rename];
+      // 3-4 variants chosen by seed
+      let mut idx: Vec<usize> = (0..kinds.len()).collect();
+      vcore::rng::Src::shuffle(&mut r, &mut idx);
+      for &k in idx.iter().take(3) {
+         let (vp, rel_map) = xform::variant06(&mut r, &prog, &kinds[k]);
+         if gen::kf2_shape(&vp) && GenCfg::core().excluded("KF-2") {
+            crate::count_excluded("KF-2");
+            continue;
+         }
+         let name = format!("{:?}", kinds[k]);
+         let mut m = meta(&base, &name, Kind::Ascent, false);
+         m.rel_map = rel_map;
+         m.check_ast = true;
+         m.labels = vec![format!("variant:{name}")];
+         members.push(MemberSpec { prog: vp, opts: PrintOpts::plain(Kind::Ascent), meta: m });
+      }
+      {
+         let mut m = meta(&base, "PermuteInput", Kind::Ascent, false);
+         m.permute_input = true;
+         m.labels = vec!["variant:PermuteInput".into()];
+         members.push(MemberSpec { prog: prog.clone(), opts: PrintOpts::plain(Kind::Ascent), meta: m });
+      }
+      if uninterpreted {
+         for scheme in ["big", "str"] {
+            let vp = xform::rename_consts(&prog, scheme);
+            if gen::kf2_shape(&vp) && GenCfg::core().excluded("KF-2") {
+               crate::count_excluded("KF-2");
+               continue;
+            }
+            let mut m = meta(&base, &format!("RenameConsts_{scheme}"), Kind::Ascent, false);
+            m.val_map = Some(scheme.to_string());
+            m.check_ast = true;
+            m.labels = vec![format!("variant:RenameConsts_{scheme}")];
+            members.push(MemberSpec { prog: vp, opts: PrintOpts::plain(Kind::Ascent), meta: m });
+         }
+      }
+      out.push(GroupSpec { members });
+   }
+   out
+}
+
+/// C07: sugared program, the engine's core expansion of it (two flavours), and the reference on the sugared AST
+fn plan_c07(o: &Opts) -> Vec<GroupSpec> {
+   use vcore::xform;
+   let n = n_programs(o, 80, 700);
+   let mut out = vec![];
+   for i in 0..n as u64 {
+      let mut r = rng_for("C07", o.seed, i);
+      let prog = gen::gen_sugar(&mut r, &GenCfg::core());
+      let base = format!("C07-s{}-{}", o.seed, i);
+      let mut members =
+         vec![MemberSpec { prog: prog.clone(), opts: PrintOpts::plain(Kind::Ascent), meta: meta(&base, "sugared", Kind::Ascent, true) }];
+      for (name, split) in [("core", false), ("core_split_joins", true)] {
+         if name == "core_split_joins" && i % 2 == 1 {
+            continue;
+         }
+         let core = xform::desugar(&prog, split);
+         let mut m = meta(&base, name, Kind::Ascent, false);
+         m.check_ast = true;
+         members.push(MemberSpec { prog: core, opts: PrintOpts::plain(Kind::Ascent), meta: m });
+      }
+      out.push(GroupSpec { members });
+   }
+   out
+}
+
+/// C08: program with macros, its hand expansion (the engine's hygienic reference expander), reference on the expansion
+fn plan_c08(o: &Opts) -> Vec<GroupSpec> {
+   use vcore::xform;
+   let n = n_programs(o, 80, 700);
+   let mut out = vec![];
+   let mut i = 0u64;
+   while out.len() < n {
+      let mut r = rng_for("C08", o.seed, i);
+      i += 1;
+      let prog = vcore::gen_mac::gen_macros(&mut r, &GenCfg::core());
+      if prog.macros.is_empty() {
+         continue;
+      }
+      if std::env::var("VERIF_DEBUG_GEN").is_ok() {
+         eprintln!("--- program {}:\n{}", i - 1, serde_json::to_string(&prog).unwrap());
+      }
+      let expanded = xform::expand_macros(&prog);
+      if gen::kf2_shape(&expanded) && GenCfg::core().excluded("KF-2") {
+         crate::count_excluded("KF-2");
+         continue;
+      }
+      let base = format!("C08-s{}-{}", o.seed, i - 1);
+      let mut m0 = meta(&base, "macros", Kind::Ascent, true);
+      let twice = prog.rules.iter().any(|ru| ru.body.iter().filter(|b| matches!(b, vcore::ast::BodyItem::MacroCall { .. })).count() >= 2);
+      let nested = prog.macros.iter().any(|m| m.body.iter().any(|b| matches!(b, vcore::ast::BodyItem::MacroCall { .. })));
+      if twice {
+         m0.labels.push("macro_invoked_twice_in_one_rule".into());
+      }
+      if nested {
+         m0.labels.push("nested_macro".into());
+      }
+      if prog.macros.iter().any(|m| m.is_head) {
+         m0.labels.push("head_macro".into());
+      }
+      let mut m1 = meta(&base, "hand_expanded", Kind::Ascent, false);
+      m1.check_ast = true;
+      out.push(GroupSpec {
+         members: vec![
+            MemberSpec { prog: prog.clone(), opts: PrintOpts::plain(Kind::Ascent), meta: m0 },
+            MemberSpec { prog: expanded, opts: PrintOpts::plain(Kind::Ascent), meta: m1 },
+         ],
+      });
+   }
+   out
+}
+
+/// C09: packaging variants of one program
+fn plan_c09(o: &Opts) -> Vec<GroupSpec> {
+   use vcore::rng::Src;
+   let n = n_programs(o, 48, 400);
+   let mut out = vec![];
+   let mut i = 0u64;
+   while out.len() < n {
+      let mut r = rng_for("C09", o.seed, i);
+      i += 1;
+      let prog = gen::gen_any(&mut r, &GenCfg::core());
+      if prog.rels.iter().any(|d| d.cols.is_empty()) {
+         continue;
+      }
+      let base = format!("C09-s{}-{}", o.seed, i - 1);
+      let par_ok = gen::par_rejects(&prog).is_none();
+      let n_items = prog.rels.len() + prog.rules.len();
+      let plain_inputs: Vec<String> = prog.rels.iter().filter(|d| d.is_input && !d.is_lattice && d.ds.is_none()).map(|d| d.name.clone()).collect();
+      let mut members =
+         vec![MemberSpec { prog: prog.clone(), opts: PrintOpts::plain(Kind::Ascent), meta: meta(&base, "ascent", Kind::Ascent, true) }];
+      let mut add = |name: &str, opts: PrintOpts| {
+         let mut m = meta(&base, name, opts.kind, false);
+         m.attrs = opts.attrs.clone();
+         m.labels = vec![format!("packaging:{name}")];
+         members.push(MemberSpec { prog: prog.clone(), opts, meta: m });
+      };
+      // a seeded choice of 5-6 packagings per base
+      let mut kinds: Vec<usize> = (0..11).collect();
+      r.shuffle(&mut kinds);
+      for &k in kinds.iter().take(6) {
+         match k {
+            0 => add("ascent_run", PrintOpts::plain(Kind::AscentRun)),
+            1 if par_ok => add("ascent_run_par", PrintOpts::plain(Kind::AscentRunPar)),
+            2 if !plain_inputs.is_empty() => {
+               let mut op = PrintOpts::plain(Kind::AscentRun);
+               op.init_rels = plain_inputs.iter().filter(|_| r.chance(60)).cloned().collect();
+               if !op.init_rels.is_empty() {
+                  op.redeclare = op.init_rels.iter().filter(|_| r.chance(50)).cloned().collect();
+                  add("ascent_run_init", op);
+               }
+            },
+            3 => {
+               let a = r.below(n_items + 1);
+               let b = a + r.below(n_items - a + 1);
+               let mut op = PrintOpts::plain(Kind::Ascent);
+               op.include_cut = Some((a, b));
+               add("include_source", op);
+            },
+            4 if par_ok => {
+               let a = r.below(n_items + 1);
+               let b = a + r.below(n_items - a + 1);
+               let mut op = PrintOpts::plain(Kind::AscentPar);
+               op.include_cut = Some((a, b));
+               add("include_source_par", op);
+            },
+            5 => {
+               let a = r.below(n_items + 1);
+               let b = a + r.below(n_items - a + 1);
+               let mut op = PrintOpts::plain(Kind::AscentRun);
+               op.include_cut = Some((a, b));
+               add("include_source_run", op);
+            },
+            6 if !plain_inputs.is_empty() => {
+               let mut op = PrintOpts::plain(Kind::Ascent);
+               op.init_rels = plain_inputs.iter().filter(|_| r.chance(60)).cloned().collect();
+               if !op.init_rels.is_empty() {
+                  op.redeclare = op.init_rels.iter().filter(|_| r.chance(50)).cloned().collect();
+                  add("initialised_relations", op);
+               }
+            },
+            7 if par_ok && !plain_inputs.is_empty() => {
+               let mut op = PrintOpts::plain(Kind::AscentPar);
+               op.init_rels = plain_inputs.iter().filter(|_| r.chance(60)).cloned().collect();
+               if !op.init_rels.is_empty() {
+                  add("initialised_relations_par", op);
+               }
+            },
+            8 => {
+               let mut op = PrintOpts::plain(Kind::Ascent);
+               op.attrs = vec!["measure_rule_times".into()];
+               add("measure_rule_times", op);
+            },
+            9 => {
+               let mut op = PrintOpts::plain(if par_ok && r.chance(40) { Kind::AscentPar } else { Kind::Ascent });
+               op.attrs = vec!["generate_run_timeout".into()];
+               add("generate_run_timeout", op);
+            },
+            10 if par_ok => {
+               let mut op = PrintOpts::plain(Kind::AscentPar);
+               op.attrs = vec!["measure_rule_times".into(), "inter_rule_parallelism".into()];
+               add("measure_rule_times_par", op);
+            },
+            _ => {},
+         }
+      }
+      drop(add);
       out.push(GroupSpec { members });
    }
    out
